@@ -152,6 +152,9 @@ def process_query(q, known_open):
         res["replay"] = rp
         if rp.get("verdict") == "fails":
             res["status"] = "violated"
+        elif rp.get("verdict") == "target-missing":
+            res["status"] = "inconclusive"
+            res["reason"] = f"harness target missing in this tree (no verdict on the property): {rp.get('detail')}"[:500]
         else:
             res["status"] = "harness-error"
             res["reason"] = f"counterexample does not reproduce natively ({rp.get('verdict')}): {r.get('detail')}"[:600]
